@@ -10,7 +10,7 @@ COMMON_ASSUMPTIONS = [
 
 import gens
 
-GENERATORS = {"probe": gens.gen_probe}
+GENERATORS = {"probe": gens.gen_probe, "c04_quick": gens.gen_c04("quick"), "c04_thorough": gens.gen_c04("thorough")}
 
 # interim reasons while the framework is being built (kept current with every commit)
 NOT_YET = {}
@@ -20,6 +20,27 @@ PROPS = {
     "PROBE": {"level": "model_checking", "claim": "", "note": "", "not_applicable": "internal cost probe",
               "tiers": {"quick": {"modules": ["g_probe"], "generators": ["probe"], "timeout_s": 300, "mem_gb": 12},
                         "thorough": {"modules": ["p_probe"], "timeout_s": 100, "mem_gb": 12}}},
+    "C04": {
+        "level": "model_checking",
+        "claim": "For every enumerated frame shape of every v3.1/v3.1.1/v5.0 packet type (concrete lengths, presence bits, property-id sequences and "
+                 "connect flags; every content byte, identifier, code and option symbolic) the solver decides that the strict decoder accepts exactly when "
+                 "the spec-side constraints hold and that every returned field equals the value the specification assigns to those bytes.",
+        "note": "strict decoder = composition new_with + build_empty_packet + block_decode + exact-consumption/eof mapping on the sync twin "
+                "(equivalence of common/poll.rs with that composition for every PollHeader is C05's obligation); string validators replaced by class stubs "
+                "(all-valid class here; invalid classes under C12/C20); spec layout/tables in tools/mqttgen.py",
+        "functions": ["Header::new_with (v3, v5)", "PollHeader::{build_empty_packet, block_decode, remaining_len, is_eof_error}", "every packet body decode_async (twin)",
+                      "decode_properties! expansions", "read_string/read_bytes/read_u8/u16/u32/decode_var_int"],
+        "bounds": {"quick": "197 shapes: text/binary lengths 0..2, <= 3 topics/codes, every single allowed property per packet (user property only where usable), "
+                            "selected connect-flag bytes, boundary subscription identifiers, shape-level malformations (unknown/disallowed/duplicate property, wrong property length)",
+                   "thorough": "all 256 connect-flag bytes (v3.1.1 and v5), lengths up to 4, property pairs"},
+        "outside": "contents longer than 4 bytes; user properties in PUBLISH/SUBSCRIBE/SUBACK/UNSUBSCRIBE/UNSUBACK (CBMC loses pointers read back from Vec buffers: spurious results, see DESIGN); "
+                   "string fields in more than one invalid class at a time; shared-subscription filters inside packets (C16/C17 cover the validator)",
+        "assumptions": ["pinned leniencies of DESIGN.md section 3.5 are part of the reference grammar"],
+        "tiers": {
+            "quick": {"modules": ["g_c04_v3", "g_c04_v5"], "generators": ["c04_quick"], "timeout_s": 600, "mem_gb": 8, "jobs": 14},
+            "thorough": {"modules": ["g_c04_v3", "g_c04_v5"], "generators": ["c04_thorough"], "timeout_s": 1200, "mem_gb": 10, "jobs": 12},
+        },
+    },
     "C19": {
         "level": "model_checking",
         "claim": "Every (Pid, u16) pair is symbolic: the solver shows + / - / += / -= / try_from agree with the cycle 1..=65535 closed form, "
